@@ -1,141 +1,62 @@
 /-
   C16 — read and write failures stop the run with an error, never a panic or silent loss.
+
+  Step level (`Jawk/Props/C16Steps.lean`): all read-event schedules (`Interrupted`, short reads) and all write
+  failure offsets of the modelled `Read` / `Write`.  Run level (this file, helper `Jawk/Lemmas/Locality.lean`):
+  a fault item anywhere in a source is fatal under EVERY `--on-error` policy the moment it is pulled, no report is
+  written for it, both output logs only ever grow, and what was written before the fault is a prefix of what the
+  fault-free run writes.
 -/
-import Jawk.Model.Run
-import Jawk.Lemmas.PM
+import Jawk.Props.C16Steps
+import Jawk.Lemmas.Locality
 namespace Jawk.C16
-open Jawk Reader
+open Jawk Loc
 
-/-! ### Reads: `Interrupted` results and short reads are invisible -/
+variable (orc : Oracles) (c : Cfg) (p : Pipeline)
 
-/-- no `Ok(0)` in the middle, no error: the events are just a chunking with retries -/
-def CleanEvents : List ReadEvent → Prop
-  | [] => True
-  | .data [] :: _ => False
-  | .data (_ :: _) :: rest => CleanEvents rest
-  | .interrupted :: rest => CleanEvents rest
-  | .error :: _ => False
+/-- a read fault is never skipped like a malformed value nor mistaken for the end of input: a parser call either
+leaves it unread or returns the I/O error, consuming exactly up to it -/
+theorem fault_is_not_skipped (r : Reader) (post : List RItem) (hs : (RItem.err :: post) <:+ r.rest) :
+    (RItem.err :: post) <:+ r.nextJson.2.rest ∨ (r.nextJson.1 = .error .io ∧ r.nextJson.2.rest = post) :=
+  nextJson_fault r post hs
 
-def flattenEvents : List ReadEvent → List Byte
-  | [] => []
-  | .data bs :: rest => bs ++ flattenEvents rest
-  | _ :: rest => flattenEvents rest
+/-- MAIN: from any configuration of the read loop with a fault ahead: the loop reaches a configuration with the
+fault still ahead and both logs extended, and then EITHER the next call returns the I/O error and the loop ends
+with `.error .io` in exactly that state (no report, whatever the policy) OR the loop had already ended (Break,
+or an earlier error) without pulling it -/
+theorem read_error_is_fatal_run (fuel : Nat) (k : Conf) (post : List RItem)
+    (hs : (RItem.err :: post) <:+ k.r.rest) :
+    ∃ k', Reach orc c p k k' ∧ (RItem.err :: post) <:+ k'.r.rest ∧
+      k.s.out.out <+: k'.s.out.out ∧ k.s.err.out <+: k'.s.err.out ∧
+      ((k'.r.nextJson.1 = .error .io ∧ k'.r.nextJson.2.rest = post ∧
+          readLoop orc c p fuel k.r k.inFile k.s = .error ⟨.error .io,
+            { k'.s with pulled := k.s.pulled ++ [k.r.pulled + (k.r.rest.length - post.length)] }⟩) ∨
+       (∃ s' r' d, readLoop orc c p fuel k.r k.inFile k.s = .ok (s', r', d) ∧ (RItem.err :: post) <:+ r'.rest) ∨
+       (∃ e, readLoop orc c p fuel k.r k.inFile k.s = .error e ∧
+          (e.st.pulled = k.s.pulled ∨
+           ∃ n, e.st.pulled = k.s.pulled ++ [n] ∧ n < k.r.pulled + (k.r.rest.length - post.length)))) :=
+  Loc.read_error_is_fatal_run orc c p fuel k post hs
 
-/-- any delivery of the same bytes (any chunk sizes, any number of `Interrupted` results)
-gives the parser the same byte sequence -/
-theorem interrupted_and_short_reads_invisible (ev : List ReadEvent) (h : CleanEvents ev) :
-    bytesOf ev = cleanInput (flattenEvents ev) := by
-  induction ev with
-  | nil => rfl
-  | cons e rest ih =>
-    cases e with
-    | data bs =>
-      cases bs with
-      | nil => exact absurd h (by simp [CleanEvents])
-      | cons b bs =>
-        simp only [CleanEvents] at h
-        simp [bytesOf, flattenEvents, cleanInput, ih h]
-    | interrupted =>
-      simp only [CleanEvents] at h
-      simp [bytesOf, flattenEvents, ih h]
-    | error => exact absurd h (by simp [CleanEvents])
+/-- nothing written is ever taken back: for every configuration, every input, every writer (bounded or not), the
+bytes on stdout / stderr at the start are a prefix of those at the end -/
+theorem output_only_grows (sources : List Source) (wOut wErr : Writer) :
+    wOut.out <+: (run orc c sources wOut wErr).stdout ∧ wErr.out <+: (run orc c sources wOut wErr).stderr :=
+  run_out_monotone orc c sources wOut wErr
 
-/-- a read error surfaces as one `err` item after exactly the bytes delivered before it, and
-nothing after it is ever read -/
-theorem read_error_surfaces_once (ev : List ReadEvent) (after : List ReadEvent) (h : CleanEvents ev) :
-    bytesOf (ev ++ .error :: after) = cleanInput (flattenEvents ev) ++ [RItem.err] := by
-  induction ev with
-  | nil => rfl
-  | cons e rest ih =>
-    cases e with
-    | data bs =>
-      cases bs with
-      | nil => exact absurd h (by simp [CleanEvents])
-      | cons b bs =>
-        simp only [CleanEvents] at h
-        simp [bytesOf, flattenEvents, cleanInput, ih h]
-    | interrupted =>
-      simp only [CleanEvents] at h
-      simp [bytesOf, flattenEvents, ih h]
-    | error => exact absurd h (by simp [CleanEvents])
-
-/-- the reader turns the `err` item into the unrecoverable `io` error -/
-theorem next_on_error_item (r : Reader) (rest : List RItem) (he : r.eof = false) (hr : r.rest = .err :: rest) :
-    (Reader.next r).1 = .error .io := by
-  simp [Reader.next, he, hr]
-
-theorem io_cannot_recover : PErr.io.canRecover = false := rfl
-
-/-- an unrecoverable reader error ends the run with an I/O error under every `--on-error`
-policy: it is neither skipped like a malformed value nor mistaken for the end of input, no
-report line is written for it, and what had been written so far stays written -/
-theorem read_error_is_fatal (orc : Oracles) (c : Cfg) (p : Pipeline) (fuel : Nat) (r r' : Reader) (inFile : Nat)
-    (s : RunState) (hn : r.nextJson = (.error .io, r')) :
-    ∃ st, readLoop orc c p (fuel + 1) r inFile s = .error ⟨.error .io, st⟩ ∧ st.out = s.out ∧ st.err = s.err := by
-  rw [readLoop]
-  simp [hn, PErr.canRecover]
-
-/-! ### Writes -/
-
-/-- a writer's log only grows -/
-theorem put_prefix (w : Writer) (bs : List Byte) : w.out <+: (w.put bs).out := by
-  unfold Writer.put
-  split
-  · exact List.prefix_refl _
-  · split
-    · exact List.prefix_append _ _
-    · split
-      · exact List.prefix_append _ _
-      · exact List.prefix_append _ _
-
-/-- once failed, always failed, and nothing more is written -/
-theorem put_after_failure (w : Writer) (bs : List Byte) (h : w.failed = true) : w.put bs = w := by
-  simp [Writer.put, h]
-
-/-- a write that does not fit writes exactly the bytes before the failing offset and fails -/
-theorem put_partial (w : Writer) (bs : List Byte) (k : Nat) (hf : w.failed = false) (hr : w.room = some k)
-    (hlen : k < bs.length) :
-    (w.put bs).out = w.out ++ bs.take k ∧ (w.put bs).failed = true := by
-  simp [Writer.put, hf, hr, Nat.not_le.mpr hlen]
-
-/-- an unbounded writer never fails -/
-theorem put_unbounded (w : Writer) (bs : List Byte) (hf : w.failed = false) (hr : w.room = none) :
-    (w.put bs).out = w.out ++ bs ∧ (w.put bs).failed = false ∧ (w.put bs).room = none := by
-  simp [Writer.put, hf, hr]
-
-/-- writing a list of chunks only extends the log -/
-theorem putAll_prefix (chunks : List (List Byte)) (w : Writer) : w.out <+: (putAll w chunks).out := by
-  induction chunks generalizing w with
-  | nil => exact List.prefix_refl _
-  | cons c cs ih =>
-    simp only [putAll, List.foldl_cons]
-    exact List.IsPrefix.trans (put_prefix w c) (ih (w.put c))
-
-theorem wres_error (w : Writer) (f : Failure) (h : wres w = .error f) : f.kind = .io ∧ f.w = w := by
-  unfold wres at h
-  split at h
-  · cases h; exact ⟨rfl, rfl⟩
-  · cases h
-
-/-- a failed write of a row ends `process` at the sink with an I/O error (never a panic),
-and the failure carries the bytes written so far -/
-theorem write_error_is_fatal_at_sink (s : SinkCfg) (len : Nat) (w : Writer) (ctx : Ctx) (f : Failure)
-    (h : sinkProcess s len w ctx = .error f) : f.kind = .io ∧ w.out <+: f.w.out := by
-  unfold sinkProcess at h
-  cases s with
-  | json o sep =>
-    obtain ⟨hk, hw⟩ := wres_error _ f h
-    exact ⟨hk, hw ▸ putAll_prefix _ w⟩
-  | text o sep =>
-    simp only at h
-    split at h
-    · obtain ⟨hk, hw⟩ := wres_error _ f h
-      exact ⟨hk, hw ▸ putAll_prefix _ w⟩
-    · obtain ⟨hk, hw⟩ := wres_error _ f h
-      exact ⟨hk, hw ▸ putAll_prefix _ w⟩
-
-/-- non-vacuity -/
-example : CleanEvents [.data [1, 2], .interrupted, .data [3]] := by simp [CleanEvents]
-example : bytesOf [.data [1, 2], .interrupted, .error, .data [9]] = [.byte 1, .byte 2, .err] := by decide
+/-- streaming prefix: when the run over `pre ++ fault ++ post` ends at the fault, its result is the I/O error and
+its stdout and stderr are PREFIXES of those of the run over `pre ++ cont` for every fault-free or faulty
+continuation `cont` — whatever reached the output before the failure is a prefix of the fault-free output -/
+theorem streaming_prefix (name : Option Str) (pre post cont : List RItem) (rest rest₂ : List Source)
+    (wOut wErr w0 : Writer) (e : RunEnd)
+    (hb : build orc c = .ok p) (hs : sinkStart p.sink p.titles wOut = .ok w0)
+    (h : readLoop orc c p ((pre ++ RItem.err :: post).length + 2) (Reader.ofItems (pre ++ RItem.err :: post) name) 0
+          { sts := p.sts, out := w0, err := wErr } = .error e)
+    (hp : e.st.pulled = [pre.length + 1]) :
+    (run orc c (⟨name, pre ++ RItem.err :: post⟩ :: rest) wOut wErr).result = .error .io ∧
+    (run orc c (⟨name, pre ++ RItem.err :: post⟩ :: rest) wOut wErr).stdout
+      <+: (run orc c (⟨name, pre ++ cont⟩ :: rest₂) wOut wErr).stdout ∧
+    (run orc c (⟨name, pre ++ RItem.err :: post⟩ :: rest) wOut wErr).stderr
+      <+: (run orc c (⟨name, pre ++ cont⟩ :: rest₂) wOut wErr).stderr :=
+  streaming_prefix_run orc c p name pre post cont rest rest₂ wOut wErr w0 e hb hs h hp
 
 end Jawk.C16
